@@ -6,6 +6,7 @@ import (
 
 	"github.com/nspcc-dev/bbolt"
 	cid "github.com/nspcc-dev/neofs-sdk-go/container/id"
+	"github.com/nspcc-dev/neofs-sdk-go/object"
 	oid "github.com/nspcc-dev/neofs-sdk-go/object/id"
 )
 
@@ -132,13 +133,27 @@ func (db *DB) GetGarbage(limit int) ([]TrashBin, error) {
 }
 
 func listGarbageObjects(cur *bbolt.Cursor, prefix byte, cnr cid.ID, limit int) []oid.ID {
-	var objs []oid.ID
+	var (
+		objs    []oid.ID
+		n       int
+		attrCur = cur.Bucket().Cursor()
+	)
 
 	for obj := range iterPrefixedIDs(cur, []byte{prefix}, oid.ID{}) {
-		if len(objs) >= limit {
+		if n >= limit {
 			break
 		}
+		// Virtual parents (known, but not physically stored) are dropped along
+		// with their last child, deleting them directly can be a no-op. They
+		// must not eat the batch, otherwise they can block GC forever.
+		if _, err := fetchTypeForID(attrCur, obj); err == nil && getObjAttribute(attrCur, obj, object.FilterPhysical) == nil {
+			if prefix == metaPrefixGarbage {
+				objs = append(objs, obj)
+			}
+			continue
+		}
 		objs = append(objs, obj)
+		n++
 	}
 
 	return objs
